@@ -1,0 +1,131 @@
+//go:build verif
+// +build verif
+
+package runtime
+
+import (
+	"fmt"
+	"sync/atomic"
+	"unsafe"
+)
+
+// Verification hook points, enabled with the "verif" build tag.  They observe
+// and never change interpreter state.  The embedding test harness installs the
+// callbacks in VerifMonitor before creating runtimes.
+
+// VerifMonitor holds the callbacks of the monitor.  All may be nil.
+var VerifMonitor struct {
+	// Report is called when a hook sees an invariant broken.
+	Report func(kind, detail string)
+	// Point is called at named points of the coroutine hand-off; it may
+	// sleep or yield the processor to widen interleavings.
+	Point func(point string)
+	// Goroutine is called with "start"/"exit" when a coroutine goroutine
+	// starts and just before it exits.
+	Goroutine func(event string, t *Thread)
+}
+
+// VerifOpCount counts executed VM steps by kind: index 0-7 is the type prefix
+// (top 4 bits) of a Lua opcode other than a binary operator, 8 is a Go function
+// entry, 16+X is the binary operator X.
+var VerifOpCount [32]uint64
+
+// VerifReports counts the reports made by the hooks.
+var VerifReports uint64
+
+type verifRuntimeState struct {
+	owner unsafe.Pointer // *Thread allowed to run Lua code, nil if unknown
+}
+
+func verifReport(kind, format string, args ...interface{}) {
+	atomic.AddUint64(&VerifReports, 1)
+	if f := VerifMonitor.Report; f != nil {
+		f(kind, fmt.Sprintf(format, args...))
+	}
+}
+
+func verifCheckOwner(t *Thread, what string) {
+	if t == t.gcThread {
+		return
+	}
+	owner := (*Thread)(atomic.LoadPointer(&t.Runtime.verifState.owner))
+	if owner != nil && owner != t {
+		verifReport("owner", "%s by thread %p while the baton is with thread %p", what, t, owner)
+	}
+}
+
+func verifLuaStep(t *Thread, c *LuaCont, pc int16) {
+	if op := c.code[pc]; op.HasType1() {
+		atomic.AddUint64(&VerifOpCount[16+int(op.GetX())], 1)
+	} else {
+		atomic.AddUint64(&VerifOpCount[int(op>>28)], 1)
+	}
+	verifCheckOwner(t, "lua instruction")
+	verifCheckLive(t, "lua instruction")
+	if t.status != ThreadOK {
+		verifReport("status", "lua instruction in thread %p with status %d", t, t.status)
+	}
+}
+
+func verifGoStep(t *Thread, c *GoCont) {
+	atomic.AddUint64(&VerifOpCount[8], 1)
+	verifCheckOwner(t, "go function "+c.name)
+	verifCheckLive(t, "go function "+c.name)
+}
+
+func verifHandoff(point string, t *Thread, to *Thread) {
+	if to != nil {
+		atomic.StorePointer(&t.Runtime.verifState.owner, unsafe.Pointer(to))
+	}
+	if f := VerifMonitor.Point; f != nil {
+		f(point)
+	}
+}
+
+func verifGoroutine(event string, t *Thread) {
+	if f := VerifMonitor.Goroutine; f != nil {
+		f(event, t)
+	}
+}
+
+func verifPoolValues(v []Value) {
+	for i, x := range v {
+		if x != (Value{}) {
+			verifReport("pool", "recycled register set of size %d has non-zero slot %d", len(v), i)
+			return
+		}
+	}
+}
+
+func verifPoolCells(c []Cell) {
+	for i, x := range c {
+		if x != (Cell{}) {
+			verifReport("pool", "recycled cell set of size %d has non-zero slot %d", len(c), i)
+			return
+		}
+	}
+}
+
+func verifPoolLuaCont(c *LuaCont) {
+	if c.Closure != nil || c.registers != nil || c.cells != nil || c.pc != 0 || c.acc != nil || c.running || c.borrowedCells || c.closeStackBase != 0 {
+		verifReport("pool", "recycled LuaCont is not zero")
+	}
+}
+
+func verifPoolGoCont(c *GoCont) {
+	if c.GoFunction != nil || c.next != nil || c.args != nil || c.etc != nil || c.nArgs != 0 {
+		verifReport("pool", "recycled GoCont is not zero")
+	}
+}
+
+func verifCloseStack(t *Thread, c *LuaCont) {
+	if sz := t.closeStack.size(); sz != c.closeStackBase {
+		verifReport("closestack", "function exit with close stack size %d, frame base %d", sz, c.closeStackBase)
+	}
+}
+
+// VerifThreadID returns an identifier for the thread (its address).
+func VerifThreadID(t *Thread) uintptr { return uintptr(unsafe.Pointer(t)) }
+
+// VerifCloseStackSize returns the number of pending to-be-closed values of t.
+func VerifCloseStackSize(t *Thread) int { return t.closeStack.size() }
